@@ -124,6 +124,19 @@ func (s *Stats) Eval(part string) {
 	s.mu.Unlock()
 }
 
+// EvalN counts n executed cases belonging to part.
+func (s *Stats) EvalN(part string, n int64) {
+	s.mu.Lock()
+	s.evaluations += n
+	p := s.parts[part]
+	if p == nil {
+		p = &partInfo{}
+		s.parts[part] = p
+	}
+	p.Evaluations += n
+	s.mu.Unlock()
+}
+
 // Exhaustive marks part as a complete enumeration of a finite space.
 func (s *Stats) Exhaustive(part string) {
 	s.mu.Lock()
